@@ -19,6 +19,7 @@ import (
 	"sync"
 	"sync/atomic"
 	"time"
+	"unsafe"
 
 	"verifharness/gen"
 	"verifharness/probe"
@@ -597,6 +598,62 @@ func c14History(st *c14State, inputs []c14Input, randomSeqs int, full, triples b
 	}
 }
 
+// c14Aliased: inputs that SHARE THEIR MEMORY with earlier inputs. A caller that reads vectors into one reused
+// buffer and hands them over without copying (unsafe.String), or simply a garbage-collected input whose memory is
+// given to the next one, presents different contents at the same address and length: anything keyed on the string
+// header instead of the contents (a "same input as last time" fast path) answers with the previous result. All
+// ordered pairs per version, (i) both inputs written into the same buffer and passed as views of it, (ii) both as
+// fresh heap copies that are dropped at once, with a forced GC every 8 calls. Compared with the baseline at once
+// (errors may legitimately keep a substring of the input).
+func c14Aliased(st *c14State, inputs []c14Input) {
+	byVer := make([][]int, spec.NVersions)
+	max := 1
+	for i, in := range inputs {
+		byVer[in.ver] = append(byVer[in.ver], i)
+		if len(in.s) > max {
+			max = len(in.s)
+		}
+	}
+	buf := make([]byte, max)
+	view := func(s string) string {
+		if len(s) == 0 {
+			return ""
+		}
+		copy(buf, s)
+		return unsafe.String(&buf[0], len(s))
+	}
+	var n int64
+	for _, mode := range []string{"same-buffer", "fresh-copy-then-GC"} {
+		for _, ids := range byVer {
+			for _, a := range ids {
+				for _, b := range ids {
+					for _, i := range [2]int{a, b} {
+						in := &inputs[i]
+						var arg string
+						if mode == "same-buffer" {
+							arg = view(in.s)
+						} else {
+							arg = string(append([]byte(nil), in.s...))
+						}
+						got := sigParse(probe.APIs[in.ver], arg)
+						n++
+						if mode != "same-buffer" && n%8 == 0 {
+							runtime.GC()
+						}
+						if got != in.base {
+							st.mismatch(Violation{Kind: "result-depends-on-input-address", Version: spec.Versions[in.ver].Name, Steps: []Step{{Op: "parse", S: inputs[a].s}, {Op: "parse", S: inputs[b].s}}, Expected: in.base, Observed: got,
+								Detail: map[string]any{"workload": "aliased-inputs", "mode": mode, "note": "the two inputs occupied the same memory one after the other; the replay passes independent strings and may not reproduce it"}})
+							break
+						}
+					}
+				}
+			}
+		}
+	}
+	st.events.Add(n)
+	st.res.Counters["aliased_input_calls"] = n
+}
+
 // c14Siblings: sequential histories over SIBLING objects. A memo or cache keyed on a lossy fold of the object
 // (two fields XOR-ed onto the same bits, a byte left out) is right for every single call and for unrelated
 // consecutive calls; it is wrong exactly when two consecutive calls are on objects that differ in the two or three
@@ -605,7 +662,7 @@ func c14History(st *c14State, inputs []c14Input, randomSeqs int, full, triples b
 // and the histories  Z,A (reference for A after an unrelated call)  then  B (B after A)  then  A (A after B):
 // every result must equal the reference obtained after the unrelated call Z. Single goroutine.
 func c14Siblings(st *c14State, backgrounds, tripleBackgrounds int) {
-	var nPairs, nTriples int64
+	var nPairs, nTriples, nSingles int64
 	for _, api := range probe.APIs {
 		v := api.Ver
 		r := gen.New(st.seed, "C14", "siblings", v.Name)
@@ -655,6 +712,18 @@ func c14Siblings(st *c14State, backgrounds, tripleBackgrounds int) {
 			bad := 0
 			A := B.Clone()
 			for m1 := 0; m1 < n && bad < 3; m1++ {
+				for v1 := range v.Metrics[m1].Values {
+					if uint8(v1) != B[m1] {
+						A[m1] = uint8(v1)
+						if !one(A) {
+							bad++
+						}
+						nSingles++
+					}
+				}
+				A[m1] = B[m1]
+			}
+			for m1 := 0; m1 < n && bad < 3; m1++ {
 				for m2 := m1 + 1; m2 < n && bad < 3; m2++ {
 					for v1 := range v.Metrics[m1].Values {
 						if uint8(v1) == B[m1] {
@@ -692,6 +761,7 @@ func c14Siblings(st *c14State, backgrounds, tripleBackgrounds int) {
 		}
 	}
 	st.res.Counters["sibling_pairs"] = nPairs
+	st.res.Counters["sibling_singles"] = nSingles
 	st.res.Counters["sibling_triples"] = nTriples
 }
 
@@ -1137,6 +1207,9 @@ func C14Child(mode, tier string, seed int64) {
 		// sequential histories short there (complete pairs only without the yield pass)
 		c14History(st, inputs, 200/scale+10, mode == "race", false)
 	}
+	if mode != "race-instr" {
+		c14Aliased(st, inputs)
+	}
 	if mode == "plain" || mode == "asan" {
 		if quick {
 			c14Siblings(st, 3, 1)
@@ -1450,7 +1523,7 @@ func CheckC14(c *Ctx) {
 		totalEvents += res.Events + coldEvents
 		distinct += res.ContextPairs
 		summary[b.mode] = map[string]any{"events": res.Events, "distinct_keys": res.Keys, "keys_seen_by_2plus_goroutines": res.KeysMulti, "distinct_(previous,current)_context_pairs": res.ContextPairs,
-			"yields_taken": res.Yields, "sibling_pairs": res.Counters["sibling_pairs"], "sibling_triples": res.Counters["sibling_triples"], "hammer_calls": res.Counters["hammer_calls"], "hammer_phases": res.Counters["hammer_phases"], "strings_reverified": res.StringsRecheck, "sequences": res.Sequences, "pool_reuse_sequences_v2": res.PoolReuse, "race_report_blocks": raw, "race_reports_deduplicated": len(dedup),
+			"yields_taken": res.Yields, "sibling_singles": res.Counters["sibling_singles"], "aliased_input_calls": res.Counters["aliased_input_calls"], "sibling_pairs": res.Counters["sibling_pairs"], "sibling_triples": res.Counters["sibling_triples"], "hammer_calls": res.Counters["hammer_calls"], "hammer_phases": res.Counters["hammer_phases"], "strings_reverified": res.StringsRecheck, "sequences": res.Sequences, "pool_reuse_sequences_v2": res.PoolReuse, "race_report_blocks": raw, "race_reports_deduplicated": len(dedup),
 			"configurations": res.Configs, "wall_s": time.Since(t0).Seconds(), "inputs": res.Counters["inputs"], "fresh_process_baselines": res.Counters["fresh_process_baselines"],
 			"cold_start_processes": coldProcs, "cold_start_first_use_calls": coldEvents}
 		if b.mode == "race-instr" {
@@ -1497,7 +1570,7 @@ func CheckC14(c *Ctx) {
 		c.Extra["yield_points_inserted"] = s
 	}
 	c.SetReport(Report{
-		Rule:        "four builds of the CURRENT tree (plain; -race; -race after the AST yield-point pass that inserts seeded Gosched/sleep calls at loop heads and after call statements of go-cvss; -asan in thorough). In each: (1) baselines of ~40 inputs per version computed after forced double GC in forward and reverse order (must agree with each other, with the grammar/canonical-form oracles and -- plain build -- with the same call made as the first call of a fresh process); (2) sequential histories hostile to pooled scratch buffers under GOMAXPROCS(1)+GC off: ALL ordered pairs per version, all triples for v2 (1/7 for others), random sequences of 2-50 calls across versions -- every result must equal its baseline; (3) goroutines {4,8,16,64} x GOMAXPROCS {1,2,16} hammering the small shared input set, plus a hot-keys phase per repetition over only 2-4 inputs (parse, everything observable of shared read-only objects, Set on local copies, parse-mutate-parse, Rating) with results compared to baselines; (0) cold concurrent starts: short-lived processes in which NO go-cvss call has happened yet release 8-24 goroutines together, round by round, on the same parse + score + Vector call (550 first-use rounds each), judged against the spec oracles; (3b) hammer phases: G goroutines calling ONE method on the same 4 objects in a tight loop with nothing of the harness in between (one phase per scoring method, Vector and ParseVector, per version and repetition; G x GOMAXPROCS in {16x16, 8x4, 4x2, 32x16, 3x3}), each result compared with the quiescent value; (2b) sibling histories (plain, asan): for 3 (thorough 12) background objects per version EVERY object differing from it in exactly two metrics (one background, thorough 3: also exactly three), in the histories unrelated,A / A,B / B,A -- results must equal the reference after the unrelated call; (4) every Vector() string kept next to an immediate clone and re-compared later, forced GC every 10k events; (5) elapsed time: one plain-build process goes idle and wakes at process ages 0.5/1.5/3.5/7.5/15.5/47 s (thorough: also 110/300/910 s), each time making every alphabet call in a rotated order, re-reading the objects parsed at the start and re-setting every metric of clones to its own value -- all must equal the baselines (time is the stimulus, equality the verdict). Race reports are counted from the GORACE log (never from the exit code) and de-duplicated by first-frame pair. evaluations = events; distinct = distinct (previous call, current call) context pairs summed over builds",
+		Rule:        "four builds of the CURRENT tree (plain; -race; -race after the AST yield-point pass that inserts seeded Gosched/sleep calls at loop heads and after call statements of go-cvss; -asan in thorough). In each: (1) baselines of ~40 inputs per version computed after forced double GC in forward and reverse order (must agree with each other, with the grammar/canonical-form oracles and -- plain build -- with the same call made as the first call of a fresh process); (2) sequential histories hostile to pooled scratch buffers under GOMAXPROCS(1)+GC off: ALL ordered pairs per version, all triples for v2 (1/7 for others), random sequences of 2-50 calls across versions -- every result must equal its baseline; (3) goroutines {4,8,16,64} x GOMAXPROCS {1,2,16} hammering the small shared input set, plus a hot-keys phase per repetition over only 2-4 inputs (parse, everything observable of shared read-only objects, Set on local copies, parse-mutate-parse, Rating) with results compared to baselines; (0) cold concurrent starts: short-lived processes in which NO go-cvss call has happened yet release 8-24 goroutines together, round by round, on the same parse + score + Vector call (550 first-use rounds each), judged against the spec oracles; (3b) hammer phases: G goroutines calling ONE method on the same 4 objects in a tight loop with nothing of the harness in between (one phase per scoring method, Vector and ParseVector, per version and repetition; G x GOMAXPROCS in {16x16, 8x4, 4x2, 32x16, 3x3}), each result compared with the quiescent value; (2b) sibling histories (plain, asan): for 3 (thorough 12) background objects per version EVERY object differing from it in exactly one or exactly two metrics (one background, thorough 3: also exactly three), in the histories unrelated,A / A,B / B,A -- results must equal the reference after the unrelated call; (2c) aliased inputs (all builds but the yield pass): all ordered pairs per version with both inputs written into ONE reused buffer and passed as views of it, and as fresh heap copies dropped at once with a GC every 8 calls -- results must equal the baselines; (4) every Vector() string kept next to an immediate clone and re-compared later, forced GC every 10k events; (5) elapsed time: one plain-build process goes idle and wakes at process ages 0.5/1.5/3.5/7.5/15.5/47 s (thorough: also 110/300/910 s), each time making every alphabet call in a rotated order, re-reading the objects parsed at the start and re-setting every metric of clones to its own value -- all must equal the baselines (time is the stimulus, equality the verdict). Race reports are counted from the GORACE log (never from the exit code) and de-duplicated by first-frame pair. evaluations = events; distinct = distinct (previous call, current call) context pairs summed over builds",
 		DistinctN:   distinct,
 		Assumptions: []string{"the race detector sees only executed pairs of accesses; interleavings are explored, not enumerated", "dependence on elapsed time is observed only up to the idle gaps lived through (31.5 s quick, 10 min thorough); dependence on the environment (variables, files, clock date) is not driven", "in the plain build every baseline is also recomputed as the first call of a freshly started process; the sanitizer builds rely on the double-GC baseline"},
 	})
